@@ -41,7 +41,16 @@ import (
 )
 
 func init() {
-	scenarios = append(scenarios, scenario{"slow-writes", 1, []string{"resource.", "minibus.", "electricpb.", "onoffpb.", "hailpb.", "bus-shared:", "local:", "shared:"}, wlSlowWrites})
+	scope := []string{"resource.", "minibus.", "electricpb.", "onoffpb.", "hailpb.", "bus-shared:", "local:", "shared:"}
+	// "slow-writes": the held-open writes alone, every case on objects of its own.  The detector merges the
+	// clocks of everything that ever fired a timer on the same P and of everything that marshalled the same
+	// stored message (size cache), so with busy neighbours a write and a read one second apart are easily
+	// "ordered" through third goroutines; alone, nothing orders them but what the library itself does.
+	// "slow-writes-busy": the same writes while the other goroutines read, subscribe and write the same
+	// resources and keep a timer-driven collector running.
+	scenarios = append(scenarios,
+		scenario{"slow-writes", 1, scope, func(w *wl) { wlSlowWrites(w, false) }},
+		scenario{"slow-writes-busy", 1, scope, func(w *wl) { wlSlowWrites(w, true) }})
 }
 
 // slowHold keeps a callback waiting until the library's timers have had their say, WITHOUT synchronising
@@ -75,7 +84,7 @@ func (h *slowHold) wait() {
 	}
 }
 
-func wlSlowWrites(w *wl) {
+func wlSlowWrites(w *wl, busy bool) {
 	dir, err := os.MkdirTemp("", "c11-slow")
 	if err != nil {
 		panic(err)
@@ -270,6 +279,9 @@ func wlSlowWrites(w *wl) {
 	// between (and during) the calls below
 	hm := hailpb.NewModel(hailpb.WithKeepAlive(3 * time.Millisecond))
 	bg := context.Background()
+	if !busy {
+		w.g = 0
+	}
 	w.par(func(id int, rng *rand.Rand) {
 		for i := 0; time.Now().Before(w.deadline); i++ {
 			select {
